@@ -292,6 +292,22 @@ Proof. intros R Et. exact (ctl_nswp_le _ _ _ _ _ _ (inv_ctl _ _ _ _ _ _ _ (reach
 Lemma done_ok fuel : args_ok C = true -> s_pc (runm fuel) = Done -> exists s, crossm fuel = Ok s.
 Proof. intros A D. unfold cross_m. rewrite A, D. eauto. Qed.
 
+(* a hole in the stop contract: with e as the only stop argument (no cache, no callback), an objective that always
+   answers, and an accuracy value that never meets the criterion at any sweep (e.g. the sentinel -1 that accuracy returns
+   for 0/0 when the objective is identically zero), the run never returns, whatever the fuel *)
+Lemma e_only_never_returns fuel s :
+  m_max C = None -> c_nswp C = None -> c_evld C = None -> cb = None -> c_cache C = None ->
+  (forall k I, f k I <> None) ->
+  (forall k Y Yo, hitm (accuracy k Y Yo) (c_e C) = false) -> hitm (minus1 K) (c_e C) = false ->
+  crossm fuel <> Ok s.
+Proof.
+  intros Hm Hn Hv Hcb Hca Hf Ha Hneg H. destruct (cross_ok_reach fuel s H) as (_ & D).
+  unfold cross_m in H. destruct (args_ok C); [|discriminate].
+  destruct (s_pc (runm fuel)) eqn:E; [discriminate|]. injection H as <-.
+  exact (e_only_never_done K isinf f cb pones pdotL pdotR pvals pick pcoreG pfacR erank accuracy accdata C HY0 Hpick
+           Hm Hn Hv Hcb Hca Hf Ha Hneg fuel E).
+Qed.
+
 Lemma terminates_nswp_ok t fuel : args_ok C = true -> c_nswp C = Some t -> t < fuel -> exists s, crossm fuel = Ok s.
 Proof.
   intros A Et Hf. apply done_ok; auto.
